@@ -23,7 +23,8 @@ def client_phase(tier):
         vecs = [dict(x, id=x["id"] + "c") for x in SEEN if x.get("msg") in ("SUR", "SUA", "CCR", "CCA")]
         rnd.shuffle(vecs)
         cap = 1600 if tier == "quick" else 20000
-        vecs = vecs[:cap]
+        # every vector that mixes classes within one message, then a seeded sample of the others
+        vecs = [x for x in vecs if x.get("hm")] + [x for x in vecs if not x.get("hm")][:cap]
         vfh = sc.build()
         trace, n = pipe.run_harness(sc, vfh, "diamchf", vecs, chunk=max(50, len(vecs) // 12 + 1), nworkers=12, timeout=1800)
         res = pipe.judge(sc, "DiamMsgTrace", {}, trace, n)
@@ -37,7 +38,7 @@ def client_phase(tier):
 
 def check(pid, tier, replay=None):
     consts = dict(Msgs=S("SUR", "SUA", "CCR", "CCA"), Classes=S("zero", "one", "mid", "max", "min", "neg"),
-                  StrClasses=S("short", "long", "empty"), MaxPtr=24 if tier == "thorough" else 21, EmitOneIn=1)
+                  StrClasses=S("short", "long", "empty"), MaxPtr=24 if tier == "thorough" else 21, MaxNum=36, EmitOneIn=1)
     if tier == "quick":
         consts["Classes"] = S("zero", "one", "max", "min", "neg")
     extra = [dict(id="C17-tables", msg="tables", cls="", present="", k=0, strs="", steps=[1])]
